@@ -60,15 +60,15 @@ def _decider_effect(ex, a):
 _OPQ = ty.TOpaque("x")
 builder_const = Contract(qualname=IRB + "const", params={"self": _OPQ, "signal_type": ty.Str, "value": ty.Int, "source_ast": _OPQ},
                          defaults={"source_ast": None}, effect=_const_effect, verify=False,
-                         note="IRBuilder.const appends one IRConst(value) and returns a reference to it (three-line body)")
+                         note="proved in contracts.c02 (IRBuilder.const): one IRConst with this value on this type, reference to it; its denotation per irden")
 builder_arith = Contract(qualname=IRB + "arithmetic", params={"self": _OPQ, "op": ty.Str, "left": _OPQ, "right": _OPQ, "output_type": ty.Str, "source_ast": _OPQ},
                          defaults={"source_ast": None}, effect=_arith_effect, verify=False,
                          requires=[("operands are int32", lambda a: And(_i32(a.left), _i32(a.right)))],
-                         note="IRBuilder.arithmetic appends one IRArith(op, left, right); its denotation is S1's fa(op, ., .)")
+                         note="proved in contracts.c02 (IRBuilder.arithmetic): one IRArith(op, left, right) on this type; its denotation is S1's fa(op, ., .) per irden")
 builder_decider = Contract(qualname=IRB + "decider", params={"self": _OPQ, "test_op": ty.Str, "left": _OPQ, "right": _OPQ, "output_value": _OPQ,
                                                            "output_type": ty.Str, "source_ast": _OPQ, "copy_count_from_input": ty.Bool},
                            defaults={"source_ast": None, "copy_count_from_input": False}, effect=_decider_effect, verify=False,
-                           note="IRBuilder.decider appends one IRDecider; constant-output mode denotes cmp ? k : 0")
+                           note="proved in contracts.c02 (IRBuilder.decider): one IRDecider with this comparison / output / mode; constant-output mode denotes cmp ? k : 0 per irden")
 
 is_bool_callee = Contract(
     qualname=EL + "_is_boolean_producer",
